@@ -122,7 +122,7 @@ impl Prop for C04 {
         if c.hash_seed != 0 { out.push(StoreCase { hash_seed: 0, ..c.clone() }); }
         out
     }
-    fn rule(&self) -> String { "A case is one history of 10-200 store operations (insert/delete quad and triple, create/clear/drop graph, clear, index rebuild, clone, serde round trip) over a small (3x2x3 terms) or larger (14x5x14) universe and 3 named graphs + default; after every operation all lookup shapes (8 bound/unbound shapes x every graph, named-graph and merged-graph queries with PRNG-chosen visibility sets, membership, graph listing, lengths) are compared with the abstract quad set and catalog and checked for duplicates. Non-trivial = at least 10 operations ending non-empty; distinct = hash of the operation list.".into() }
+    fn rule(&self) -> String { "A case is one history of 10-200 store operations (insert/delete quad and triple, create/clear/drop graph, clear, index rebuild, clone, serde round trip) over a small (3x2x3 terms) or larger (14x5x14) universe and 3 named graphs + default; after every operation all lookup shapes (8 bound/unbound shapes x every graph, named-graph and merged-graph queries with PRNG-chosen visibility sets, membership, graph listing, lengths) are compared with the abstract quad set and catalog and checked for duplicates. Non-trivial = at least 10 operations ending non-empty; distinct = hash of the operation list. Histories also fill the database statistics cache (Stats step), which later direct store operations leave stale.".into() }
     fn assumptions(&self) -> Vec<String> { vec!["no fault or scheduling dimension exists for this property: the simulator owns only the history, the hash seed and where rebuilds fall (weak fit, see DESIGN.md section 0)".into()] }
     fn real_vs_stub(&self) -> serde_json::Value { serde_json::json!({"real": ["shared::dataset_index::DatasetIndex (all mutators and lookups)", "SparqlDatabase::{build_all_indexes, add_triple, query_default_triples}", "QueryBuilder::{with_subject, with_predicate, with_object, get_triples}"], "simulated": ["hash keys"], "not_run": ["QueryBuilder joins / streaming"]}) }
 }
